@@ -148,11 +148,47 @@ func c17Gens(ctx *core.Ctx, idx int) core.Result {
 	var res core.Result
 	var src string
 	var want val.Value
+	// the other built-in names rebound to junk first (one case in three): a built-in must not depend on what
+	// a program binds to the names of its siblings
+	rebind := ""
+	if r.Chance(1, 3) {
+		me := []string{"fromto", "fromto", "elems", "indices"}[idx%4]
+		for _, n := range []string{"fromto", "elems", "indices", "aton", "read"} {
+			if n != me && r.Chance(2, 3) {
+				rebind += " " + n + " = " + []string{"10", "\"junk\"", "(p, q) -> for k <- [] yield k", "() -> 0"}[r.Intn(4)] + "\n"
+			}
+		}
+	}
 	collect := func(call string) string {
-		return "{\n zr = []\n for zi <- " + call + " zr = zr + [zi]\n zr\n}"
+		return "{\n" + rebind + " zr = []\n for zi <- " + call + " zr = zr + [zi]\n zr\n}"
+	}
+	take := func(call string, k int) string {
+		return fmt.Sprintf("{\n"+rebind+" zr = []\n for zi <- %s {\n zr = zr + [zi]\n if #zr >= %d return zr\n }\n zr\n}", call, k)
+	}
+	i64 := func(v int64) string {
+		if v == math.MinInt64 {
+			return "(0 - 9223372036854775807 - 1)"
+		}
+		if v < 0 {
+			return fmt.Sprintf("(0 - %d)", -v)
+		}
+		return fmt.Sprint(v)
 	}
 	switch idx % 4 {
 	case 0:
+		if r.Chance(1, 5) {
+			// bounds at the ends of the integer range, more than 2^63 apart; the first three elements are taken
+			ends := []int64{math.MinInt64, math.MinInt64 + 1, -2, -1, 0, 1, 2, math.MaxInt64 - 3, math.MaxInt64 - 1, math.MaxInt64}
+			a, b := ends[r.Intn(len(ends))], ends[r.Intn(len(ends))]
+			var l []val.Value
+			for i := int64(0); i < 3 && a <= math.MaxInt64-i && a+i < b; i++ {
+				l = append(l, val.IntV(a+i))
+			}
+			want = val.ArrV(l)
+			src = take(fmt.Sprintf("fromto(%s, %s)", i64(a), i64(b)), 3)
+			res.Tag("gen:fromto-extreme-bounds")
+			break
+		}
 		a, b := r.Range(-6, 6), r.Range(-6, 6)
 		if r.Chance(1, 8) {
 			a = r.Range(-3, 3) + 1<<40
